@@ -31,7 +31,15 @@ func fail(f string, a ...any) {
 }
 
 var tables = map[string]func(){
-	"consts": genConsts,
+	"consts":  genConsts,
+	"schemas": genSchemas,
+	"wiring":  genWiring,
+	// C18 (c18.go)
+	"jsontypes": genJsonTypes,
+	"tags":      genTags,
+	"factory":   genFactory,
+	// C17 (locks.go)
+	"locks": genLocks,
 }
 
 func main() {
